@@ -20,6 +20,6 @@ for pid in pids:
         print(pid, 'NOT locked:', res['problems'][:3]);
         if old is not None: lock[pid] = old
     else:
-        lock[pid] = res['statements']
+        lock[pid] = dict(res['statements']); lock[pid]['__definitions__'] = res['definitions_hash']
         print(pid, 'locked', len(res['statements']), 'theorems')
     core.LOCK.write_text(json.dumps(lock, indent=1, sort_keys=True))
